@@ -897,6 +897,24 @@ def run_output(case):
     if not jsame(expected, parsed, tol=o["maxdecimals"]):
         shape = "uint64_wrap" if img.big_uint and jsame(_wrap_uint64(expected), parsed, tol=o["maxdecimals"]) else "value"
         raise Violation("output:%s|%s" % (shape, region), "json.loads(tojson(a)) differs from the value of a", expected=show(expected), observed=show(parsed))
+    # ---- elements: what getitem_at returns (a Record -> Record::tojson_part, a sub-array view) prints as the corresponding entry
+    n = len(expected) if isinstance(expected, list) else 0
+    for i in (sorted(set([0, n - 1])) if n else []):
+        item = lay[i]
+        if not isinstance(item, L.Content):
+            continue                                         # None or a boxed Python scalar
+        what = "record" if isinstance(item, L.Record) else "array"
+        ioutcome, itext = _read(lambda: item.tojson(**kw))
+        if ioutcome != "ok":
+            raise Violation("tojson_raised:item_%s|%s" % (what, region), "tojson of element %d raised: %s" % (i, itext[:200]), observed=itext[:300])
+        try:
+            iparsed = _loads_strict(itext)
+        except ValueError as e:
+            raise Violation("illformed:item_%s|%s" % (what, region), "tojson of element %d is not well-formed JSON: %s" % (i, e), expected=show(expected[i]), observed=itext[:600])
+        if not jsame(expected[i], iparsed, tol=o["maxdecimals"]):
+            raise Violation("output:item_%s|%s" % (what, region), "json.loads(tojson(a[%d])) differs from the value of a[%d]" % (i, i),
+                            expected=show(expected[i]), observed=show(iparsed))
+        tags.add("out:item_" + what)
     # ---- round trip through the reader (replacement strings as written)
     reader = dict(case["reader"], nan=o["nan"], inf=o["inf"], minf=o["minf"])
     # a non-finite replacement string that also occurs as an ordinary string value reads back as the float: documented, and
